@@ -160,6 +160,20 @@ type Case struct {
 	Fragment string `json:"fragment"`  // kept by the client, never sent
 	XFProto  string `json:"xf_proto"`  // "" | https | http
 	XFHost   string `json:"xf_host"`   // "" | only (Host is the proxy's internal name, real host in X-Forwarded-Host) | both (Host passed through too)
+
+	// HostPort: explicit port the client puts into Host ("" = none), e.g. "site.example:8080"; only for
+	// hosts that do not carry a port already
+	HostPort string `json:"host_port,omitempty"`
+	// Site (kind dnslink-host only): the DNSLink host is itself listed in PublicGateways, the way a
+	// DNSLink website is pinned to a gateway ({Paths: [], NoDNSLink: false}) or ipfs.io serves both
+	Site *SiteGw `json:"site,omitempty"`
+}
+
+// SiteGw is a second PublicGateways entry, for the DNSLink host of a dnslink-host request.
+type SiteGw struct {
+	Key       string   `json:"key"` // "<fqdn>" | "<fqdn>:<port>" | "*.<parent of fqdn>"
+	Paths     []string `json:"paths"`
+	NoDNSLink bool     `json:"no_dnslink"`
 }
 
 // ---- generators
@@ -341,7 +355,68 @@ func gen(t *rapid.T) Case {
 	c.Fragment = rapid.SampledFrom([]string{"", "", "frag", "a/b", "x=y"}).Draw(t, "fragment")
 	c.XFProto = rapid.SampledFrom([]string{"", "", "", "https", "https", "http"}).Draw(t, "xfproto")
 	c.XFHost = rapid.SampledFrom([]string{"", "", "", "", "only", "both"}).Draw(t, "xfhost")
+
+	// explicit port in Host (the DNSLink host never has one yet; the gateway host only if it is not "localhost:8080")
+	if c.Kind == "dnslink-host" || !strings.Contains(c.GwHost, ":") {
+		c.HostPort = rapid.SampledFrom([]string{"", "", "8080", "8080", "80", "443", "1"}).Draw(t, "hostport")
+	}
+	// the DNSLink host is a known gateway hostname itself
+	if c.Kind == "dnslink-host" && rapid.Bool().Draw(t, "site") {
+		site := &SiteGw{Key: c.Root}
+		switch rapid.IntRange(0, 4).Draw(t, "sitekey") {
+		case 0: // key with port: matches only a Host with exactly that port
+			if c.HostPort != "" {
+				site.Key = c.Root + ":" + c.HostPort
+			} else {
+				site.Key = c.Root + ":8080"
+			}
+		case 1: // wildcard over the parent domain
+			if i := strings.Index(c.Root, "."); i > 0 {
+				site.Key = "*" + c.Root[i:]
+			}
+		}
+		site.Paths = rapid.SampledFrom([][]string{{}, {}, {}, {"/ipfs", "/ipns"}, {"/ipfs/"}, {"/version", "/dir"}}).Draw(t, "sitepaths")
+		site.NoDNSLink = rapid.IntRange(0, 3).Draw(t, "site_nodnslink") == 0
+		// each host must match at most one PublicGateways entry, otherwise the configuration is ambiguous
+		reqHost := hostWithPort(c.Root, c.HostPort)
+		if site.Key != c.GwKey && !keyMatches(site.Key, c.GwHost) && !keyMatches(c.GwKey, reqHost) {
+			c.Site = site
+		}
+	}
 	return c
+}
+
+func hostWithPort(h, port string) string {
+	if port == "" || strings.Contains(h, ":") {
+		return h
+	}
+	return h + ":" + port
+}
+
+// keyMatches: does the PublicGateways key select this Host value? Documented matching: the value as-is,
+// then without its port; "*" in a key stands for exactly one DNS label and the port is optional.
+func keyMatches(key, host string) bool {
+	if !strings.Contains(key, "*") {
+		return key == host || key == stripPort(host)
+	}
+	rest := strings.TrimPrefix(key, "*") // ".parent.tld"
+	h := stripPort(host)
+	if !strings.HasPrefix(key, "*.") || !strings.HasSuffix(h, rest) {
+		return false
+	}
+	first := strings.TrimSuffix(h, rest)
+	return first != "" && !strings.Contains(first, ".")
+}
+
+// pathCovered: is the request path under one of the gateway's Paths prefixes ("/ipfs" covers "/ipfs" and "/ipfs/...")?
+func pathCovered(paths []string, p string) bool {
+	for _, prefix := range paths {
+		prefix = strings.TrimSuffix(prefix, "/")
+		if p == prefix || strings.HasPrefix(p, prefix+"/") {
+			return true
+		}
+	}
+	return false
 }
 
 func stripPort(h string) string {
@@ -414,6 +489,9 @@ func run(c Case) kit.Result {
 			c.GwKey: {Paths: c.Paths, UseSubdomains: c.UseSubdomains, InlineDNSLink: c.InlineDNSLink, NoDNSLink: c.GwNoDNSLink, DeserializedResponses: true},
 		},
 	}
+	if c.Site != nil {
+		cfg.PublicGateways[c.Site.Key] = &gateway.PublicGateway{Paths: c.Site.Paths, NoDNSLink: c.Site.NoDNSLink, DeserializedResponses: true}
+	}
 	var rec seen
 	next := http.HandlerFunc(func(w http.ResponseWriter, r *http.Request) {
 		rec = seen{called: true, path: r.URL.Path, query: r.URL.RawQuery}
@@ -425,18 +503,21 @@ func run(c Case) kit.Result {
 	var host, reqPath string
 	switch c.Kind {
 	case "path":
-		host = c.GwHost
+		host = hostWithPort(c.GwHost, c.HostPort)
 		reqPath = "/" + c.NS + "/" + c.Root
 		if c.Rem != "" {
 			reqPath += "/" + c.Rem
 		}
 	case "subdomain":
-		host = c.Root + "." + c.NS + "." + c.GwHost
+		host = c.Root + "." + c.NS + "." + hostWithPort(c.GwHost, c.HostPort)
 		reqPath = "/" + c.Rem
 	case "dnslink-host":
-		host = c.Root
+		host = hostWithPort(c.Root, c.HostPort)
 		reqPath = "/" + c.Rem
 	}
+	// a DNSLink host that is also a known gateway hostname: its own entry decides (Paths, NoDNSLink)
+	siteKnown := c.Kind == "dnslink-host" && c.Site != nil && keyMatches(c.Site.Key, host)
+	siteCovered := siteKnown && pathCovered(c.Site.Paths, reqPath)
 	origPath := reqPath
 	escPath := escapePath(reqPath)
 	query := c.Query
@@ -461,6 +542,9 @@ func run(c Case) kit.Result {
 
 	desc := fmt.Sprintf("%s Host=%s %s?%s (X-Forwarded-Proto=%q, xfhost=%q; gw %s subdomains=%v inline=%v paths=%v nodnslink=%v/%v; dnslinks=%v)",
 		c.Kind, host, escPath, query, c.XFProto, c.XFHost, c.GwKey, c.UseSubdomains, c.InlineDNSLink, c.Paths, c.GwNoDNSLink, c.GlobalNoDNSLink, c.DNSLinks)
+	if c.Site != nil {
+		desc += fmt.Sprintf(" (also gw %s paths=%v nodnslink=%v)", c.Site.Key, c.Site.Paths, c.Site.NoDNSLink)
+	}
 	var trail []string
 	fail := func(format string, a ...any) kit.Result {
 		return kit.Fail("%s: %s [hops: %s]", desc, fmt.Sprintf(format, a...), strings.Join(trail, " -> "))
@@ -536,6 +620,16 @@ func run(c Case) kit.Result {
 	}
 
 	classes := []string{"kind:" + c.Kind, "root:" + c.RootKind, fmt.Sprintf("redirects:%d", redirects), fmt.Sprintf("final:%d", status)}
+	if c.HostPort != "" {
+		classes = append(classes, "host:explicit-port")
+	}
+	if c.Site != nil {
+		if siteKnown {
+			classes = append(classes, "site:known-gateway")
+		} else {
+			classes = append(classes, "site:key-not-matching")
+		}
+	}
 	if !rec.called {
 		// no content path was produced; only some refusals are in order
 		switch status {
@@ -549,6 +643,11 @@ func run(c Case) kit.Result {
 			}
 			if redirects > 0 && !gwHandlesNS {
 				return kit.Result{Classes: append(classes, "refused:path-not-served")}
+			}
+			// known gateway hostname, path outside its Paths, and no DNSLink to fall back on (disabled for
+			// this hostname, or no record): "resource does not exist on the hostname"
+			if siteKnown && !siteCovered && (c.Site.NoDNSLink || !names[c.Root]) {
+				return kit.Result{Classes: append(classes, "refused:site-no-dnslink")}
 			}
 			return fail("404 for content this gateway is configured to serve")
 		case http.StatusBadRequest:
@@ -634,12 +733,21 @@ func run(c Case) kit.Result {
 			classes = append(classes, "dnslink:by-inlined-label")
 		}
 	}
-	return kit.Result{NonTrivial: redirects > 0, Classes: classes}
+	if c.Kind == "dnslink-host" {
+		classes = append(classes, "dnslink-host:mapped")
+		if c.HostPort != "" {
+			classes = append(classes, "dnslink-host:mapped-with-port")
+		}
+		if siteKnown {
+			classes = append(classes, "dnslink-host:mapped-known-gateway")
+		}
+	}
+	return kit.Result{NonTrivial: redirects > 0 || (c.Kind == "dnslink-host" && names[wantName]), Classes: classes}
 }
 
 var spec = kit.Spec[Case]{
 	Prop: "C32", Name: "main",
-	Rule:  "gateway.NewHostnameHandler with a recording next handler and a mock backend holding 0-3 DNSLink names; public gateway (plain, with port, wildcard) x UseSubdomains x InlineDNSLink x NoDNSLink x Paths; request = path (/ipfs|/ipns + CIDv0/v1 in 8 bases and 6 codecs, peer IDs in legacy/CIDv1/dag-pb forms, DNS names incl. inlined labels), subdomain Host, or DNSLink Host, with remainder (percent-escapes, '?', '#', unicode), query, client-side fragment, X-Forwarded-Proto/Host; redirects are followed (<=4) by re-injecting Location; the path reaching next must have the same namespace and multihash / DNSLink name, remainder and query, the fragment must survive, every Location host label <= 63; non-trivial = at least one redirect was followed",
+	Rule:  "gateway.NewHostnameHandler with a recording next handler and a mock backend holding 0-3 DNSLink names; public gateway (plain, with port, wildcard) x UseSubdomains x InlineDNSLink x NoDNSLink x Paths; request = path (/ipfs|/ipns + CIDv0/v1 in 8 bases and 6 codecs, peer IDs in legacy/CIDv1/dag-pb forms, DNS names incl. inlined labels), subdomain Host, or DNSLink Host (also listed in PublicGateways itself: exact, exact:port or wildcard key x Paths x NoDNSLink), Host with or without an explicit port, with remainder (percent-escapes, '?', '#', unicode), query, client-side fragment, X-Forwarded-Proto/Host; redirects are followed (<=4) by re-injecting Location; the path reaching next must have the same namespace and multihash / DNSLink name, remainder and query, the fragment must survive, every Location host label <= 63; non-trivial = at least one redirect was followed, or a DNSLink Host with a record was mapped to /ipns/<name>/...",
 	Quick: 6000, Thorough: 50000,
 	Gen: gen, Run: run,
 }
